@@ -486,6 +486,8 @@ def run(ctx, tier):
     results += seal_last(ctx)
     results += kind_exact(ctx)
     results += header_extent(ctx)
+    import c15
+    results += c15.legacy_fallback(ctx, rule='C12.legacy-conversion')
     results += c02.alternate_rule(ctx, rule='C12.alternate')
     results += c02.cow_free_set(ctx, rule='C12.fallback-kept')
     results += c02.pending_key(ctx, rule='C12.fallback-kept.key')
